@@ -413,67 +413,205 @@ pub fn real_binary_predicate(files: &[(String, Vec<u8>)], args: &[String]) -> Op
 pub fn feature_mix_program(t: &mut Tape) -> String {
     let mut s = String::new();
     let nfn = t.urange(0, 2);
+    let mut arity: Vec<usize> = Vec::new();
     for k in 0..nfn {
-        match t.draw(4) {
-            0 => s.push_str(&format!("#fn f{}(x) => x + 1\n", k)),
-            1 => s.push_str(&format!("#fn f{}(x, y) => x * 2 + y\n", k)),
-            2 => s.push_str(&format!("#fn f{}(x) => $ + x\n", k)),
-            _ => s.push_str(&format!("#fn f{}() => 7\n", k)),
+        match t.draw(5) {
+            0 => {
+                s.push_str(&format!("#fn f{}(x) => x + 1\n", k));
+                arity.push(1);
+            }
+            1 => {
+                s.push_str(&format!("#fn f{}(x, y) => x * 2 + y\n", k));
+                arity.push(2);
+            }
+            2 => {
+                s.push_str(&format!("#fn f{}(x) => $ + x\n", k));
+                arity.push(1);
+            }
+            3 => {
+                s.push_str(&format!("#fn f{}(x) => x + g1\n", k));
+                arity.push(1);
+            }
+            _ => {
+                s.push_str(&format!("#fn f{}() => 7\n", k));
+                arity.push(0);
+            }
         }
     }
-    if t.chance(2, 3) {
-        s.push_str("#ruledef\n{\n    ld {x: u8} => 0x10 @ x\n    jmp {a} => 0x20 @ a`8\n    two {a} => asm { ld {a}\n ld {a} + 1 }\n    halt => 0xff\n}\n");
+    let has_rules = t.chance(3, 4);
+    if has_rules {
+        s.push_str("#subruledef reg\n{\n    a => 0x1\n    b => 0x2\n    [{v: u4}] => v\n}\n#subruledef opnd\n{\n    {r: reg} => 0x0 @ r`4\n    #{v: u8} => v\n}\n");
+        s.push_str("#ruledef\n{\n    ld {x: u8} => 0x10 @ x\n    ld {x: s16} => 0x11 @ x\n    mv {o: opnd} => 0x30 @ o\n");
+        s.push_str("    jmp {a} => { assert(a - $ < 8 && a - $ >= -8), 0x2 @ (a - $)`4 }\n    jmp {a} => 0x20 @ a`16\n");
+        s.push_str("    two {a} => asm { ld {a}\n ld {a} + 1 }\n    far {a} => asm { jmp {a}\n .here:\n jmp .here }\n    halt => 0xff\n}\n");
     }
-    let call = |t: &mut Tape, nfn: usize| -> String {
-        if nfn == 0 {
+    let banked = t.chance(1, 4);
+    if banked {
+        s.push_str("#bankdef rom\n{\n    addr = 0x100\n    size = 0x80\n    outp = 0\n    fill\n}\n#bankdef ram\n{\n    addr = 0x8000\n    size = 0x10\n}\n#bank rom\n");
+    }
+    // names that the body may mention; whatever is mentioned but not declared by the body is declared at the end
+    let mut used_g = [false; 4];
+    let mut decl_g = [false; 4];
+    let mut used_z = [false; 3];
+    let mut decl_z = [false; 3];
+    let mut used_cfg = false;
+    let mut decl_cfg = false;
+    let mut have_global = false;
+    let faulty = t.chance(1, 5); // one case in five may carry a deliberate fault
+    let call = |t: &mut Tape, arity: &Vec<usize>, faulty: bool| -> String {
+        if arity.is_empty() {
             return format!("{}", t.draw(9));
         }
-        let k = t.below(nfn);
-        match t.draw(3) {
-            0 => format!("f{}({})", k, t.draw(5)),
-            1 => format!("f{}({}, {})", k, t.draw(5), t.draw(5)),
-            _ => format!("f{}()", k),
+        let k = t.below(arity.len());
+        let n = if faulty && t.chance(1, 4) { (arity[k] + 1) % 3 } else { arity[k] };
+        let args: Vec<String> = (0..n).map(|_| format!("{}", t.draw(6))).collect();
+        format!("f{}({})", k, args.join(", "))
+    };
+    if arity.len() > 0 {
+        used_g[1] = true; // f..(x) => x + g1 may be among them
+    }
+    let n = t.urange(2, 12);
+    let mut sym = 0;
+    let mut in_local_ok = |s: &mut String, have_global: &mut bool, decl_g: &mut [bool; 4]| {
+        if !*have_global {
+            s.push_str("g0:\n");
+            decl_g[0] = true;
+            *have_global = true;
         }
     };
-    let n = t.urange(2, 9);
-    let mut sym = 0;
     for _ in 0..n {
-        match t.draw(10) {
+        match t.draw(18) {
             0 => {
-                let cond = *t.pick(&["true", "false", "1 == 1", "cfgz", "cfgz == 2", "!true"]);
+                let cond = *t.pick(&["true", "false", "1 == 1", "cfgz == 2", "cfgz != 2", "!true", "cfgz > 1 && true"]);
+                if cond.contains("cfgz") {
+                    used_cfg = true;
+                }
                 s.push_str(&format!("#if {}\n{{\n", cond));
                 for _ in 0..t.urange(0, 2) {
                     sym += 1;
-                    match t.draw(4) {
+                    match t.draw(6) {
                         0 => s.push_str(&format!("    y{} = {}\n", sym, t.draw(9))),
                         1 => s.push_str(&format!("    lb{}:\n", sym)),
-                        2 => s.push_str(&format!("    y{} = {}\n", sym, call(t, nfn))),
+                        2 => s.push_str(&format!("    y{} = {}\n", sym, call(t, &arity, faulty))),
+                        3 if has_rules => {
+                            let k = t.urange(1, 3);
+                            used_g[k] = true;
+                            s.push_str(&format!("    jmp g{}\n", k));
+                        }
                         _ => s.push_str(&format!("    #d8 {}\n", t.draw(200))),
                     }
                 }
                 s.push_str("}\n");
-                if t.chance(1, 3) {
-                    s.push_str("#else\n{\n    #d8 0xee\n}\n");
+                match t.draw(4) {
+                    0 => s.push_str("#else\n{\n    #d8 0xee\n}\n"),
+                    1 => {
+                        used_cfg = true;
+                        s.push_str("#elif cfgz == 2\n{\n    #d8 0xed\n}\n");
+                    }
+                    _ => {}
                 }
+                // an arm may have declared a global symbol: what follows must not rely on the scope before it
+                have_global = false;
             }
             1 => {
-                sym += 1;
-                s.push_str(&format!("z{} = {}\n", sym, call(t, nfn)));
+                let k = t.below(3);
+                if !decl_z[k] {
+                    decl_z[k] = true;
+                    s.push_str(&format!("z{} = {}\n", k, call(t, &arity, faulty)));
+                    have_global = false;
+                }
             }
-            2 => s.push_str(&format!("#d8 {}\n", call(t, nfn))),
-            3 => {
-                sym += 1;
-                s.push_str(&format!("g{}:\n", sym));
+            2 => s.push_str(&format!("#d8 {}\n", call(t, &arity, faulty))),
+            3 | 4 => {
+                let k = t.urange(1, 3);
+                if !decl_g[k] {
+                    decl_g[k] = true;
+                    if !banked {
+                        s.push_str("#align 8\n");
+                    }
+                    s.push_str(&format!("g{}:\n", k));
+                    have_global = true;
+                }
             }
-            4 => {
+            5 => {
                 sym += 1;
+                in_local_ok(&mut s, &mut have_global, &mut decl_g);
                 s.push_str(&format!(".l{}:\n", sym));
             }
-            5 => s.push_str(&format!("ld {}\n", call(t, nfn))),
-            6 => s.push_str(&format!("two {}\n", t.draw(9))),
-            7 => s.push_str("cfgz = 2\n"),
-            8 => s.push_str(&format!("#d8 z{}\n", t.urange(1, 4))),
-            _ => s.push_str(&format!("jmp g{}\n", t.urange(1, 4))),
+            6 if has_rules => s.push_str(&format!("ld {}\n", call(t, &arity, faulty))),
+            7 if has_rules => s.push_str(&format!("two {}\n", t.draw(9))),
+            8 => {
+                if !decl_cfg {
+                    decl_cfg = true;
+                    s.push_str(&format!("cfgz = {}\n", *t.pick(&[2, 2, 1])));
+                    have_global = false;
+                }
+            }
+            9 => {
+                let k = t.below(3);
+                used_z[k] = true;
+                s.push_str(&format!("#d8 z{}\n", k));
+            }
+            10 if has_rules => {
+                let k = t.urange(1, 3);
+                used_g[k] = true;
+                s.push_str(&format!("jmp g{}\n", k));
+            }
+            11 if has_rules => {
+                let k = t.urange(1, 3);
+                used_g[k] = true;
+                s.push_str(&format!("far g{}\n", k));
+            }
+            12 if has_rules => {
+                let o = if faulty && t.chance(1, 3) { *t.pick(&["c", "#300", "[77]"]) } else { *t.pick(&["a", "b", "[3]", "#5", "#g1", "[z1]"]) };
+                if o.contains("g1") {
+                    used_g[1] = true;
+                }
+                if o.contains("z1") {
+                    used_z[1] = true;
+                }
+                s.push_str(&format!("mv {}\n", o));
+            }
+            13 => s.push_str(&format!("#align {}\n", *t.pick(&[8, 16, 32]))),
+            14 => s.push_str(&format!("#res {}\n", t.draw(4))),
+            15 => {
+                let a = if faulty && t.chance(1, 3) { "1 == 2" } else { *t.pick(&["1 == 1", "$ >= 0", "cfgz >= 1", "g1 < 0x8000"]) };
+                if a.contains("cfgz") {
+                    used_cfg = true;
+                }
+                if a.contains("g1") {
+                    used_g[1] = true;
+                }
+                s.push_str(&format!("#assert {}\n", a));
+            }
+            16 => s.push_str(&format!("#d \"s{}\", 0x0{}\n", sym, t.draw(9))),
+            _ => {
+                sym += 1;
+                let k = t.urange(1, 3);
+                used_g[k] = true;
+                s.push_str(&format!("k{} = g{} + {}\n", sym, k, t.draw(4)));
+                have_global = false;
+            }
+        }
+    }
+    // declare what was only mentioned (unless this is a faulty case that keeps an undefined name)
+    let keep_undefined = faulty && t.chance(1, 3);
+    if !keep_undefined {
+        if used_cfg && !decl_cfg {
+            s.push_str("cfgz = 2\n");
+        }
+        for k in 0..3 {
+            if used_z[k] && !decl_z[k] {
+                s.push_str(&format!("z{} = {}\n", k, t.draw(9)));
+            }
+        }
+        for k in 1..4 {
+            if used_g[k] && !decl_g[k] {
+                if !banked {
+                    s.push_str("#align 8\n");
+                }
+                s.push_str(&format!("g{}:\n", k));
+            }
         }
     }
     s
